@@ -204,19 +204,21 @@ type Step struct {
 
 // Exec is one execution of the harness threads under one schedule.
 type Exec struct {
-	threads []*thread
-	prefix  []Choice
-	pi      int
-	npos    int
-	hash    uint64
-	cps     []cp
-	npoints int
-	maxPts  int
-	done    chan struct{}
-	enbuf   []*thread
-	dirty   []Resetter
-	verbose bool
-	steps   []Step
+	threads  []*thread
+	prefix   []Choice
+	pi       int
+	npos     int
+	hash     uint64
+	cps      []cp
+	npoints  int
+	maxPts   int
+	done     chan struct{}
+	ctl      chan struct{}
+	starting bool
+	enbuf    []*thread
+	dirty    []Resetter
+	verbose  bool
+	steps    []Step
 
 	// results
 	Deadlock  bool
@@ -240,7 +242,7 @@ func (x *Exec) point(t *thread, k Kind, b Blocker) {
 	x.npoints++
 	t.npts++
 	x.hash = (x.hash ^ (uint64(t.id)<<8 | uint64(k))) * fnvPrime
-	if x.verbose {
+	if x.verbose && !x.starting {
 		x.steps = append(x.steps, Step{Tid: t.id, Kind: k, Site: callSite()})
 	}
 	if x.npoints > x.maxPts {
@@ -251,6 +253,19 @@ func (x *Exec) point(t *thread, k Kind, b Blocker) {
 		return
 	}
 	t.pKind, t.pB = k, b
+	if x.starting {
+		// start-up phase: every thread runs (alone, in id order) up to its first point
+		// and parks there; no choice is involved.  Control goes back to the controller.
+		cur = nil
+		x.ctl <- struct{}{}
+		<-t.wake
+		if x.verbose {
+			// listed when the operation is performed, not when it was announced
+			x.steps = append(x.steps, Step{Tid: t.id, Kind: k, Site: callSite()})
+		}
+		t.pB = nil
+		return
+	}
 	x.schedule(t)
 	t.pB = nil
 }
@@ -390,7 +405,7 @@ func Run(bodies []func(), prefix []Choice, verbose bool) *Exec {
 	if cur != nil {
 		panic("sched.Run called from a harness thread")
 	}
-	x := &Exec{prefix: prefix, done: make(chan struct{}, 1), verbose: verbose, maxPts: 2_000_000}
+	x := &Exec{prefix: prefix, done: make(chan struct{}, 1), ctl: make(chan struct{}, 1), verbose: verbose, maxPts: 2_000_000}
 	x.hash = 14695981039346656037
 	x.threads = make([]*thread, len(bodies))
 	x.enbuf = make([]*thread, 0, len(bodies))
@@ -399,6 +414,18 @@ func Run(bodies []func(), prefix []Choice, verbose bool) *Exec {
 		x.threads[i] = t
 		go t.run(b)
 	}
+	// Start-up: bring every thread to its first synchronisation operation.  The code
+	// before it touches no shared synchronisation object, so the order is irrelevant
+	// to everything this scheduler can distinguish; doing it without choices makes the
+	// number of schedules of k non-blocking threads exactly the number of
+	// interleavings of their operations.
+	x.starting = true
+	for _, t := range x.threads {
+		cur = t
+		t.wake <- struct{}{}
+		<-x.ctl
+	}
+	x.starting = false
 	x.schedule(nil)
 	<-x.done
 	if x.Divergent == "" && x.pi < len(x.prefix) {
@@ -416,6 +443,11 @@ func (t *thread) run(body func()) {
 		}
 		t.state = stFinished
 		x.finished++
+		if x.starting {
+			cur = nil
+			x.ctl <- struct{}{}
+			return
+		}
 		x.schedule(t)
 	}()
 	body()
